@@ -29,6 +29,13 @@ class Ctx:
         cfg = os.path.join(scratch(), "%s_%d.cfg" % (label.replace("/", "_"), len(self.cov["models"])))
         with open(cfg, "w") as f:
             f.write(cfg_text)
+        keep = os.environ.get("VERIF_KEEP_CFG")       # export the generated configuration files (spec/cfg/)
+        if keep:
+            os.makedirs(keep, exist_ok=True)
+            name = re.sub(r"[^A-Za-z0-9_.-]+", "_", label)[:110]
+            with open(os.path.join(keep, "%s__%s.cfg" % (self.pid, name)), "w") as f:
+                f.write("\\* %s   (module %s, instance %s; run: harness/tlc.sh %s -config <this file> %s.tla)\n" % (label, module, mode, mode, module)
+                        + cfg_text)
         extra = list(extra)
         if simulate:
             extra += ["-simulate", simulate]
